@@ -10,9 +10,13 @@ CONSTANTS
   MaxUpdate = 0
   ClearOnSet = TRUE
   ClearOnDelete = TRUE
+  BareKeyShortcut = FALSE
   Accepts = {}
   JsonT <- TJson
   TextXmlT <- TTXml
   AppXmlT <- TAXml
+  SufJson <- TSufJson
+  SufXml <- TSufXml
   MemoiseOffered = FALSE
+  ExactLookup = FALSE
 INVARIANT Sound
